@@ -44,16 +44,7 @@ pub fn uci_struct_roundtrip<S: Src, const SIDE: u8, const KG: u8>(s: &mut S) {
     vcover!("promotion capture", m.kind >= K_PN && p.cells[m.dst as usize] != 0);
 }
 
-/// FULL x every uci::Move value: accepted (semilegal / legal) <=> such a move exists.
-/// "exists" is decided with ONE symbolic kind k standing for all ten (soundness from the move the
-/// reader returns, completeness from the universally quantified k) instead of a ten-way loop.
-pub fn uci_accept_exact<S: Src, const SIDE: u8>(s: &mut S) {
-    crate::stubs::draw_hash_pool(s);
-    let b = match any_board(s, SIDE) {
-        Some(b) => b,
-        None => return,
-    };
-    let p = pos_of(b.raw());
+fn any_uci<S: Src>(s: &mut S) -> (uci::Move, bool, u8, u8, u8) {
     let is_null = s.bool();
     let src = s.below(64);
     let dst = s.below(64);
@@ -63,44 +54,75 @@ pub fn uci_accept_exact<S: Src, const SIDE: u8>(s: &mut S) {
     } else {
         uci::Move::Move { src: Coord::from_index(src as usize), dst: Coord::from_index(dst as usize), promote: promote_of(pr) }
     };
+    (u, is_null, src, dst, pr)
+}
+
+pub const UA_SEMI: u8 = 0; // semilegal reader <=> a semilegal move with these fields exists
+pub const UA_LEGAL: u8 = 1; // legal reader <=> a legal move with these fields exists
+pub const UA_MAKE: u8 = 2; // applying the value <=> the legal reader accepts (relational, no oracle); null never
+
+/// FULL x every uci::Move value.  "exists" is decided with ONE symbolic kind k standing for all ten
+/// (soundness from the move the reader returns, completeness from the universally quantified k)
+/// instead of a ten-way loop.  Split in three parts (the whole exceeded 24 GB).
+pub fn uci_accept_exact<S: Src, const SIDE: u8, const PART: u8>(s: &mut S) {
+    crate::stubs::draw_hash_pool(s);
+    let b = match any_board(s, SIDE) {
+        Some(b) => b,
+        None => return,
+    };
+    let p = pos_of(b.raw());
+    let (u, is_null, src, dst, pr) = any_uci(s);
     let read = u.into_move(&b);
-    let semi = match read {
-        Ok(mv) => mv.semi_validate(&b).is_ok(),
-        Err(_) => false,
-    };
-    let legal = match read {
-        Ok(mv) => mv.validate(&b).is_ok(),
-        Err(_) => false,
-    };
+    if PART == UA_MAKE {
+        let legal = match read {
+            Ok(mv) => mv.validate(&b).is_ok(),
+            Err(_) => false,
+        };
+        let made = u.make(&b);
+        vnote!("fen={} uci={:?} read={:?} legal reader={} applied={}", b.as_fen(), u, read, legal, made.is_ok());
+        vassert!("a UCI value is applied exactly when the legal reader accepts it", made.is_ok() == legal);
+        vassert!("the null move is never accepted as a move to play", !(is_null && made.is_ok()));
+        let mut bc = b.clone();
+        let rr = u.make_raw(&mut bc);
+        vassert!("the in-place entry point agrees", rr.is_ok() == legal);
+        vcover!("applied", made.is_ok());
+        vcover!("null value", is_null);
+        return;
+    }
     // a symbolic candidate with that source, destination and promotion: any non-null kind
     let k = 1 + s.below(9);
     let cand = M { kind: k, cell: p.cells[src as usize], src, dst };
     let promo_ok = if pr == 0 { k < K_PN } else { k == promo_kind(pr) };
     let cand_semi = !is_null && promo_ok && semilegal_ref(&p, cand);
-    let cand_legal = cand_semi && legal_ref(&p, cand);
-    vnote!("fen={} uci={:?} read={:?} semi={} legal={} candidate={:?} cand_semi={} cand_legal={}", b.as_fen(), u, read, semi, legal, mv_of(cand), cand_semi, cand_legal);
-    // completeness: every semilegal / legal move with these fields is what the readers return
-    vassert!("semilegal reader succeeds whenever such a semilegal move exists, and returns it", !cand_semi || (semi && read == Ok(mv_of(cand))));
-    vassert!("legal reader succeeds whenever such a legal move exists", !cand_legal || legal);
-    // soundness: what the readers accept is such a move
-    if let Ok(mv) = read {
-        let m = m_of(mv);
-        if semi {
+    if PART == UA_SEMI {
+        let semi = match read {
+            Ok(mv) => mv.semi_validate(&b).is_ok(),
+            Err(_) => false,
+        };
+        vnote!("fen={} uci={:?} read={:?} semilegal reader={} candidate={:?} semilegal by rules={}", b.as_fen(), u, read, semi, mv_of(cand), cand_semi);
+        vassert!("semilegal reader succeeds whenever such a semilegal move exists, and returns it", !cand_semi || (semi && read == Ok(mv_of(cand))));
+        if let (true, Ok(mv)) = (semi, read) {
+            let m = m_of(mv);
             vassert!("semilegal reader accepts only a semilegal move with that source, destination and promotion",
                 !is_null && semilegal_ref(&p, m) && m.src == src && m.dst == dst && (if pr == 0 { m.kind < K_PN } else { m.kind == promo_kind(pr) }));
         }
-        if legal {
-            vassert!("legal reader accepts only a legal move", legal_ref(&p, m));
+        vcover!("accepted promotion", semi && pr != 0);
+        vcover!("promotion letter on a non-promoting move", !semi && pr != 0 && p.cells[src as usize] != 0);
+        vcover!("null value", is_null);
+    } else {
+        let legal = match read {
+            Ok(mv) => mv.validate(&b).is_ok(),
+            Err(_) => false,
+        };
+        let cand_legal = cand_semi && legal_ref(&p, cand);
+        vnote!("fen={} uci={:?} read={:?} legal reader={} candidate={:?} legal by rules={}", b.as_fen(), u, read, legal, mv_of(cand), cand_legal);
+        vassert!("legal reader succeeds whenever such a legal move exists", !cand_legal || legal);
+        if let (true, Ok(mv)) = (legal, read) {
+            vassert!("legal reader accepts only a legal move", legal_ref(&p, m_of(mv)));
         }
+        vcover!("legal promotion", legal && pr != 0);
+        vcover!("semilegal candidate refused as illegal", cand_semi && !legal);
     }
-    vassert!("legal implies semilegal", !legal || semi);
-    // applying the value: accepted iff the legal reader accepts; null never accepted
-    let made = u.make(&b);
-    vassert!("a UCI value is applied exactly when the legal reader accepts it (null never)", made.is_ok() == legal && !(is_null && made.is_ok()));
-    vcover!("null value", is_null);
-    vcover!("legal promotion", legal && pr != 0);
-    vcover!("semilegal but illegal", semi && !legal);
-    vcover!("promotion letter on a non-promoting move", !semi && pr != 0 && p.cells[src as usize] != 0);
 }
 
 /// position-free: every UTF-8 string of <= 6 bytes: accepted <=> [a-h][1-8][a-h][1-8][nbrq]? | 0000
